@@ -11,6 +11,7 @@ import Driver.C12
 import Driver.C13
 import Driver.C16
 import Driver.C17
+import Driver.C20
 open Lean Drv
 
 def dispatch (j : Json) : Except String Json := do
@@ -28,6 +29,7 @@ def dispatch (j : Json) : Except String Json := do
   | "C13" => Drv.C13.handle j
   | "C16" => Drv.C16.handle j
   | "C17" => Drv.C17.handle j
+  | "C20" => Drv.C20.handle j
   | _ => throw s!"bad-property {p}"
 
 partial def loop (h : IO.FS.Stream) (out : IO.FS.Stream) : IO Unit := do
